@@ -238,7 +238,7 @@ class SessionBuilder:
         rng = self.rng
         r = rng.random()
         files: List[Dict[str, str]] = []
-        if r < 0.06:
+        if r < 0.10:
             argv = rng.choice(
                 [
                     ["detect", "--list-detectors"],
@@ -249,9 +249,9 @@ class SessionBuilder:
                     ["detect"],  # neither --contracts nor --group-config: CommandLineError, exit 1
                 ]
             )
-        elif r < 0.12:
-            argv = ["print", "--contracts", "{C}", "--printers", rng.choice(self.ctx.printers)]
         elif r < 0.15:
+            argv = ["print", "--contracts", "{C}", "--printers", rng.choice(self.ctx.printers)]
+        elif r < 0.18:
             argv = ["regex", "regex.txt", "--contracts", "{C}"]
             files = [{"name": "regex.txt", "text": "* =>\n int 1\n return\n"}]
         else:
@@ -280,7 +280,12 @@ class SessionBuilder:
         if rng.random() < 0.25:
             # a scratch file name used again for another contract (edit-and-reanalyse loops)
             op["fname"] = "contract.teal"
-        return self.add(op)
+        self.add(op)
+        if argv[:1] != ["--json"] and "--contracts" not in argv and rng.random() < 0.7:
+            # a listing / version / misuse call is followed by an ordinary default run, which is what
+            # would show anything the boring call left behind
+            self.add({"op": "cli", "c": cid, "argv": list(JSON_ARGV), "s1": s1})
+        return op
 
     def cli_group(self, s1: Any) -> Optional[Dict[str, Any]]:
         """`tealer detect --group-config cfg.yaml` through main() (prints and exits 1)."""
